@@ -190,6 +190,8 @@ def run_case(case: dict):
         return run_sink_reuse(case)
     if case.get("device"):
         return run_device(case)
+    if case.get("plugin_twice"):
+        return run_plugin_twice(case)
     if case.get("prefix_leading"):
         return run_prefix_leading(case)
     arity = 3 if case["cls"] == "triple" else 4
@@ -263,6 +265,34 @@ def run_case(case: dict):
     except Exception as e:  # noqa: BLE001
         return "violation", ("not-readable-back", f"pyjelly cannot read its output: "
                                                   f"{type(e).__name__}: {e}")
+    return "ok", None
+
+
+def run_plugin_twice(case: dict):
+    """The rdflib serializer plugin object of one store writes that store to two outputs: each
+    output holds everything (or the second call is refused)."""
+    from pyjelly.integrations.rdflib.serialize import RDFLibJellySerializer  # noqa: PLC0415
+
+    seq = list(T3 if case["cls"] == "triple" else T4)
+    ser = RDFLibJellySerializer(DR.r_graph(seq))
+    outs = []
+    try:
+        for _ in range(2):
+            out = io.BytesIO()
+            ser.serialize(out)
+            outs.append(out.getvalue())
+    except Exception as e:  # noqa: BLE001
+        return "raised", type(e).__name__
+    for n, data in enumerate(outs):
+        try:
+            _, per = jspec.decode_frames(jwire.read_delimited(data))
+            got = {T.norm_st(s) for s in jspec.statements(per)}
+        except (jwire.WireError, jspec.SpecViolation) as e:
+            return "violation", ("invalid-output", f"output {n + 1} of the same serializer "
+                                                   f"object is not a valid stream: {e}")
+        if got != set(T.norm_seq(seq)):
+            return "violation", ("statements-missing", f"output {n + 1} of the same serializer "
+                                                       f"object lacks statements")
     return "ok", None
 
 
@@ -518,6 +548,12 @@ def shard(job) -> dict:
             outcome, info = run_case(case)
             if outcome == "violation":
                 acc.violation({"fail": info[0], "sink_reuse": True}, f"{info[1]}: {case}", case)
+        for cls in ("triple", "quad"):
+            case = {"plugin_twice": True, "cls": cls}
+            outcome, info = run_case(case)
+            acc.counters[f"plugin_twice:{outcome}"] += 1
+            if outcome == "violation":
+                acc.violation({"fail": info[0], "plugin_twice": True}, f"{info[1]}: {case}", case)
         for api in ("generic", "rdflib"):
             for entry in ("flat_to_file", "flat_to_frames"):
                 for arity in (3, 4):
